@@ -4,7 +4,7 @@
 cd "$(dirname "$0")/../coq"
 gen=$(mktemp -d /tmp/trall.XXXX); rc=0
 q="-Q Model PauLie -Q Theory PauLie -Q Refine PauLieRefine -Q $gen PauLieGen -w -notation-overridden,-deprecated"
-for k in classification:Class compiler:Comp pstring:PS collection:Coll parser:Parser table:Table apps:App linear:Lin optimiser:Opt search:Search factory:Factory numpy:Numpy; do
+for k in classification:Class compiler:Comp pstring:PS collection:Coll parser:Parser table:Table apps:App linear:Lin optimiser:Opt search:Search factory:Factory numpy:Numpy queue:Queue; do
   ( /venv/bin/python ../tools/py2coq.py /repo $gen/${k#*:}Gen.v ${k%%:*} > $gen/${k#*:}.log 2>&1 \
     && timeout 300 coqc $q $gen/${k#*:}Gen.v >> $gen/${k#*:}.log 2>&1 \
     && timeout 600 coqc $q -o $gen/${k#*:}Refine.vo Refine/${k#*:}Refine.v >> $gen/${k#*:}.log 2>&1 \
